@@ -293,7 +293,7 @@ func (sc *pubScn) noteStep(st *c09State, a *pubActor, c *vfClient, stepNo int) {
 			eligible := attach[cl][rname] && !ra.chanSub && cl != c && !a.chanSub
 			if eligible {
 				rr, ok := grpRows[ru.uid]
-				eligible = ok && rr.DeletedAt == nil && (rr.ModeWant&rr.ModeGiven).IsReader()
+				eligible = ok && rr.DeletedAt == nil && (rr.ModeWant & rr.ModeGiven).IsReader()
 			}
 			if eligible && what == "kp" && ru.uid == author.uid {
 				eligible = false
@@ -401,7 +401,7 @@ func c09Scenario(w *vfWorld, r *vfkit.R, idx int) {
 			}
 			rows, _, seqNow := sc.c09Rows()
 			row, ok := rows[a.actingUser().uid]
-			if !ok || row.DeletedAt != nil || !(row.ModeWant&row.ModeGiven).IsReader() || row.RecvSeqId >= seqNow || !a.cs[0].attachState()[sc.nameFor(a)] {
+			if !ok || row.DeletedAt != nil || !(row.ModeWant & row.ModeGiven).IsReader() || row.RecvSeqId >= seqNow || !a.cs[0].attachState()[sc.nameFor(a)] {
 				continue
 			}
 			sc.noteStepFixed = &[2]any{"read", seqNow}
